@@ -197,6 +197,97 @@ def run(tier):
             res.instance("C14.R1v", "%s: age test at line %s against %s (expected %d %s)" % (fname, ln, cs, want, unit),
                          ok, finding=f)
 
+    # ---------------- R1n
+    res.rule("C14.R1n", "an age computed by psDiffMsecs (signed 32-bit milliseconds, negative after 2^31 ms or a clock step) "
+                        "passes an upper-bound expiry test only when it was also established non-negative")
+    from sa import cfgutil as cu
+    from sa.pp import pp
+
+    def base_text(e):
+        """text of the call / variable at the root of an age expression (casts and division by a constant stripped)"""
+        e = strip(e)
+        while e is not None:
+            if e.get("k") == "cast":
+                e = strip(e["e"])
+            elif e.get("k") == "bin" and e["op"] in ("/", "*") and (strip(e["r"]) or {}).get("k") == "int":
+                e = strip(e["l"])
+            else:
+                break
+        return e
+
+    def unsigned_wide(e):
+        """the age is converted to an unsigned type of at least 32 bits before the comparison (negative -> huge)"""
+        e = strip(e)
+        while e is not None and e.get("k") == "cast":
+            if not e.get("imp") and e.get("t") in ("unsigned int", "uint32", "uint32_t", "unsigned long", "uint64_t", "uint64"):
+                return True
+            e = strip(e["e"])
+        return False
+    n_age = 0
+    for fname in ("matrixResumeSession", "tls13ResumptionPskExpired"):
+        fn = prog.functions.get(fname) or next((f for f in prog.functions.values() if f.name == fname), None)
+        if fn is None:
+            continue
+        tainted = set()
+        changed = True
+        while changed:
+            changed = False
+            for b, ln, n in fn.nodes():
+                tgt = rhs = None
+                if n.get("k") == "bin" and n["op"] == "=":
+                    tgt, rhs = strip(n["l"]), n["r"]
+                elif n.get("k") == "decl" and "init" in n:
+                    tgt, rhs = n.get("var"), n["init"]
+                if tgt is None or tgt.get("k") != "var" or "id" not in tgt:
+                    continue
+                if any((m.get("k") == "call" and m.get("fn") == "psDiffMsecs") or
+                       (m.get("k") == "var" and m.get("id") in tainted) for m in walk(rhs)) and tgt["id"] not in tainted:
+                    tainted.add(tgt["id"])
+                    changed = True
+
+        def is_age(e):
+            return any((m.get("k") == "call" and m.get("fn") == "psDiffMsecs") or
+                       (m.get("k") == "var" and m.get("id") in tainted) for m in walk(e))
+        gf = cu.guard_facts(fn)
+        for b in fn.blocks:
+            t = b.get("term")
+            if t is None or "c" not in t or len(b["succ"]) != 2:
+                continue
+            if not is_age(t["c"]):
+                continue
+            for truth in (True, False):
+                atoms = cu._cond_atoms(t["c"], truth)
+                for (txt, tr_, nd) in atoms:
+                    nd = strip(nd)
+                    if nd is None or nd.get("k") != "bin" or nd["op"] not in (">", ">=", "<", "<="):
+                        continue
+                    l_, r_ = nd["l"], nd["r"]
+                    if is_age(l_) and not is_age(r_):
+                        age, upper = l_, nd["op"] in (">", ">=")
+                    elif is_age(r_) and not is_age(l_):
+                        age, upper = r_, nd["op"] in ("<", "<=")
+                    else:
+                        continue
+                    r0 = strip(r_ if age is l_ else l_)
+                    if r0 is not None and r0.get("k") == "int" and r0["v"] == 0:
+                        continue                  # the sign test itself
+                    if not upper or tr_:
+                        continue                  # only the `fresh` outcome of an upper-bound test is judged
+                    n_age += 1
+                    bt = cu.ftext(base_text(age))
+                    facts = set(gf.get(b["id"], frozenset())) | set((a, c) for (a, c, d) in atoms)
+                    ok = unsigned_wide(age) or ("(%s < 0)" % bt, False) in facts or ("(%s >= 0)" % bt, True) in facts
+                    f_ = None
+                    if not ok:
+                        f_ = Finding(PROP, "C14.R1n", fname, "negative age passes the expiry test",
+                                     "%s:%s %s(): the outcome `%s` is false (not expired) is reached without %s >= 0 having been "
+                                     "established: psDiffMsecs returns a signed 32-bit number of milliseconds that is negative for an "
+                                     "age beyond 2^31 ms (24.86 days) or after a backward clock step, so an entry far older than its "
+                                     "lifetime is accepted for resumption" % (fn.relfile, t["ln"], fname, pp(nd)[:70], pp(base_text(age))[:40]),
+                                     file=fn.relfile, line=t["ln"])
+                    res.instance("C14.R1n", "%s:%s fresh outcome of `%s`" % (fname, t["ln"], pp(nd)[:60]), ok, finding=f_)
+    res.floor("C14.R1n", 2)
+
     # ---------------- R2
     res.rule("C14.R2", "TLS 1.3: PSK accepted only with a verified binder; ticket state imported only after the AEAD open")
     fn = prog.fn("tls13ParsePreSharedKey")
